@@ -7,8 +7,8 @@
    The codecs are universally quantified functions with the single hypothesis
    `dec e (compress e p) = (p, EOF)`. *)
 From ReqV Require Import Lib.Bytes Gen.CompressLabels Gen.CompressReaders Gen.DecodeSites Model.Decode
-  Model.DecodeSession Model.DecodeAttempts Proofs.DecodeProofs Proofs.DecodeSessionProofs
-  Proofs.DecodeAttemptsProofs.
+  Model.DecodeSession Model.DecodeAttempts Model.DecodeLive Proofs.DecodeProofs Proofs.DecodeSessionProofs
+  Proofs.DecodeAttemptsProofs Proofs.DecodeLiveProofs.
 
 (* the transport asks for gzip exactly when compression is not disabled, the caller set neither
    Accept-Encoding nor Range, and the method is not HEAD - on all three stacks *)
@@ -257,6 +257,71 @@ Theorem C14_own_header_write_refuted :
   r_body (respond H1 (snd (run_attempts (attempt H1) 1 c_default)) false false r_gzip) = Lazy Gzip (bs "zzzz").
 Proof. exact own_header_refuted. Qed.
 Print Assumptions C14_own_header_write_refuted.
+
+(* ---------- settings changed between exchanges on live connections (Model/DecodeLive.v) ---------- *)
+
+(* any connection - opened under any settings, any number of exchanges old - and any list of exchanges,
+   each made under the settings current at its time: every exchange is answered exactly as `respond`
+   under the settings of that moment; nothing of the history, nothing of the settings at opening time *)
+Theorem C14_decision_reads_the_settings_of_the_moment : forall st steps lc,
+  live_run (live_exchange st) lc steps =
+  map (fun x : live_step =>
+         let '(cur, q, ended, r) := x in respond st (cfg_under cur q) (set_auto cur) ended r) steps.
+Proof. exact live_run_current. Qed.
+Print Assumptions C14_decision_reads_the_settings_of_the_moment.
+
+Theorem C14_live_connection_history_independent : forall st steps lc1 lc2,
+  live_run (live_exchange st) lc1 steps = live_run (live_exchange st) lc2 steps.
+Proof. exact live_run_history_independent. Qed.
+Print Assumptions C14_live_connection_history_independent.
+
+(* so the stacks agree on live connections too, whatever each connection was opened under *)
+Theorem C14_live_stacks_agree : forall lc1 lc2 lc3 cur q r,
+  r_cl r <> 0%Z ->
+  fst (live_exchange H1 lc1 cur q false r) = fst (live_exchange H2 lc2 cur q false r) /\
+  fst (live_exchange H2 lc2 cur q false r) = fst (live_exchange H3 lc3 cur q false r).
+Proof. exact live_stacks_agree. Qed.
+Print Assumptions C14_live_stacks_agree.
+
+(* what `live_exchange` assumes is what the source says: every read of AutoDecompression /
+   DisableCompression in the three stacks goes to the shared options where it is used (table
+   regenerated on every run) *)
+Theorem C14_settings_read_where_used :
+  decompression_setting_reads =
+  [ (bs "transport.go", bs "readLoop", bs "pc.t.AutoDecompression");
+    (bs "transport.go", bs "roundTrip", bs "pc.t.DisableCompression");
+    (bs "internal/http2/transport.go", bs "roundTrip", bs "cc.t.DisableCompression");
+    (bs "internal/http2/transport.go", bs "handleResponse", bs "cs.cc.t.AutoDecompression");
+    (bs "internal/http3/client.go", bs "roundTrip", bs "c.DisableCompression");
+    (bs "internal/http3/client.go", bs "OpenRequestStream", bs "c.DisableCompression");
+    (bs "internal/http3/http_stream.go", bs "SendRequestHeader", bs "s.DisableCompression");
+    (bs "internal/http3/http_stream.go", bs "SendRequestHeader", bs "s.disableCompression");
+    (bs "internal/http3/http_stream.go", bs "ReadResponse", bs "s.AutoDecompression") ].
+Proof. exact settings_read_where_used. Qed.
+Print Assumptions C14_settings_read_where_used.
+
+(* HTTP/2 deciding on AutoDecompression as it was when the connection was opened (NOT the code) *)
+Theorem C14_settings_snapshot_refuted :
+  let opened_off := {| lc_opened := s_off; lc_exchanges := 1 |} in
+  let opened_on := {| lc_opened := s_on; lc_exchanges := 1 |} in
+  fst (live_exchange_snapshot H2 opened_off s_on q_plain false r_deflate) = r_deflate /\
+  r_body (fst (live_exchange_snapshot H1 opened_off s_on q_plain false r_deflate)) = Lazy Deflate (bs "dddd") /\
+  r_body (fst (live_exchange H2 opened_off s_on q_plain false r_deflate)) = Lazy Deflate (bs "dddd") /\
+  r_body (fst (live_exchange_snapshot H2 opened_on s_off q_plain false r_deflate)) = Lazy Deflate (bs "dddd") /\
+  fst (live_exchange H2 opened_on s_off q_plain false r_deflate) = r_deflate.
+Proof. exact snapshot_refuted. Qed.
+Print Assumptions C14_settings_snapshot_refuted.
+
+(* http3: RequestStream.Read and res.Body hand out one and the same reader (table regenerated from
+   ReadResponse on every run) *)
+Theorem C14_h3_one_reader_for_both_ways :
+  h3_read_response_body_assignments =
+  [ (bs "s.responseBody", bs "=", bs "respBody");
+    (bs "s.responseBody", bs "=", bs "compress.NewGzipReader(respBody)");
+    (bs "s.responseBody", bs "=", bs "cr");
+    (bs "res.Body", bs "=", bs "s.responseBody") ].
+Proof. exact h3_one_reader_for_both_ways. Qed.
+Print Assumptions C14_h3_one_reader_for_both_ways.
 
 (* ---------- several responses alive at the same time (Model/DecodeSession.v) ---------- *)
 
